@@ -300,7 +300,9 @@ pub const PRELUDE_FAILS: &[(&[&str], &[u32], &str, &str, bool)] = &[
     (&["export RT0 = |a| -> Number", "  x = a", "  y = x", "  '{y}'"], &[3], "RT0(1)", "expected Number, found String", false),
     (&["export RT1 = |a| -> String", "  x = a", "  return x"], &[2], "RT1(1)", "expected String, found Number", false),
     // direct recursion: the same call site in consecutive frames
-    (&["export REC = |n|", "  if n == 0", "    throw 'rec'", "  REC(n - 1)"], &[2, 3, 3, 3], "REC(3)", "rec", true),
+    // (the function is handed to itself: a function that names itself captures itself, a
+    // reference cycle koto never frees — it would keep every program's chunk alive)
+    (&["export REC = |n, g|", "  if n == 0", "    throw 'rec'", "  g(n - 1, g)"], &[2, 3, 3, 3], "REC(3, REC)", "rec", true),
     // argument and `let` type checks
     (&["export AT0 = |a: String|", "  x = 1", "  a"], &[0], "AT0(1)", "expected String, found Number", false),
     (&["export LT0 = |a|", "  x = 1", "  let y: String = a", "  y"], &[2], "LT0(1)", "expected String, found Number", false),
